@@ -98,15 +98,34 @@ def keys_of(ast, out=None):
 
 
 # ------------------------------------------------------------------------------------ valid (evaluatable) expressions
-def gen_valid(rnd, depth, rc, hints, fcs, packages=None, want=None):
+def gen_valid(rnd, depth, rc, hints, fcs, packages=None, want=None, allow_ub=False):
     """
     returns (ast, kind). packages: {key: kind} of package keys that may be used as atoms (kind of their expansion).
     want: restrict the kind of the result to one of a tuple of kinds
+    allow_ub: time conditions may be used as atoms (only for expressions that go through the resolver): UB1 / UB2
+    stand for the shipped format constraints 932 / 934, UB3 for ([932][492]X[934][493]) - a requirement-constraint
+    kind of operand; the world must know the requirement constraints 492 and 493 then.
     """
     packages = packages or {}
     want = want or ("rc", "rc", "rc", "hint", "fc", "nhint", "nfc")
     kind = rnd.choice([k for k in want if _possible(k, rc, hints, fcs)] or ["rc"])
-    return _gen_kind(rnd, depth, kind, rc, hints, fcs, packages), kind
+    ast = _gen_kind(rnd, depth, kind, rc, hints, fcs, packages)
+    if allow_ub:
+        ast = _sprinkle_time_conditions(rnd, ast, set(fcs), set(rc))
+    return ast, kind
+
+
+def _sprinkle_time_conditions(rnd, ast, fcs, rc):
+    """replaces some format-constraint atoms by UB1/UB2 and some requirement-constraint atoms by UB3"""
+    if ast[0] == "k":
+        if ast[1] in fcs and rnd.random() < 0.15:
+            return ("ub", rnd.choice([1, 2]))
+        if ast[1] in rc and rnd.random() < 0.05:
+            return ("ub", 3)
+        return ast
+    if ast[0] in ("p", "ub"):
+        return ast
+    return (ast[0], _sprinkle_time_conditions(rnd, ast[1], fcs, rc), _sprinkle_time_conditions(rnd, ast[2], fcs, rc))
 
 
 def _possible(kind, rc, hints, fcs):
@@ -242,19 +261,19 @@ def render_ahb(parts, rnd=None, cond_style="plain"):
     return " ".join(chunks)
 
 
-def gen_ahb_parts(rnd, depth, rc, hints, fcs, packages=None, max_parts=3, indicators=None):
+def gen_ahb_parts(rnd, depth, rc, hints, fcs, packages=None, max_parts=3, indicators=None, allow_ub=False):
     """a valid AHB expression as parts list"""
     roll = rnd.random()
     if roll < 0.12:
         return [(rnd.choice(indicators or ["MUSS", "SOLL", "KANN", "X", "O", "U"]), None)]
     if roll < 0.30:
-        ast, _ = gen_valid(rnd, depth, rc, hints, fcs, packages)
+        ast, _ = gen_valid(rnd, depth, rc, hints, fcs, packages, allow_ub=allow_ub)
         return [(rnd.choice(["X", "X", "O", "U"]), ast)]
     n_parts = rnd.choice([1, 1, 1, 2, 2, 3][: max(1, min(6, max_parts * 2))])
     n_parts = min(n_parts, max_parts)
     parts = []
     for _ in range(n_parts):
-        ast, _ = gen_valid(rnd, depth, rc, hints, fcs, packages)
+        ast, _ = gen_valid(rnd, depth, rc, hints, fcs, packages, allow_ub=allow_ub)
         parts.append((rnd.choice(indicators or ["MUSS", "SOLL", "KANN"]), ast))
     if rnd.random() < 0.2:
         parts.append((rnd.choice(["MUSS", "SOLL", "KANN"]), None))
